@@ -450,8 +450,7 @@ def build_binaries(ctx):
 
 
 # The one known class was renamed per xDS type (review round 3, H2). The renamed entries are sent to the coordinator for
-# known-findings.json; until they are there the check uses these local copies, so that exactly these classes are reported
-# as KNOWN-FINDING while any other difference still fails the run.
+# known-findings.json (merged there; LOCAL_KNOWN is empty and only kept as the mechanism for a future class).
 def _known(t, scope):
     return {"property_id": "C17", "status": "known", "fingerprint": KNOWN_ORDER_FP + ":" + t,
             "what": "known: property=C17 the order of the resources inside a%s %s response of the xDS generator follows Go map iteration over the requested name "
@@ -460,14 +459,7 @@ def _known(t, scope):
                     % ("n" if t[0] in "E" else "", t, scope)}
 
 
-LOCAL_KNOWN = [
-    _known("EDS", "EDS has no request with a fixed order, so this entry masks EVERY cause of a different EDS response order, not only map iteration - except an "
-                  "order that follows the XDS cache history, which is probed separately (observation EDS.cachehistory, fingerprint perm:order:EDS:follows-cache-history)."),
-    _known("RDS", "only the walk over the requested set (observation RDS.setorder); the order of RDS for a fixed request order (ConfigGenerator.BuildHTTPRoutes on sorted "
-                  "names, observation RDS.order) is judged as perm:order:RDS."),
-    _known("ECDS", "only the walk over the requested set (observation ECDS.setorder); the order of ECDS for a fixed request order (observation ECDS.order) is judged as "
-                   "perm:order:ECDS."),
-]
+LOCAL_KNOWN = []  # the three typed entries are in /verif/known-findings.json
 
 
 def run(ctx):
@@ -485,7 +477,7 @@ def run(ctx):
                 "AuthorizationPolicy, RequestAuthentication, EnvoyFilter, Telemetry, WasmPlugin, ProxyConfig, TrafficExtension; random MeshConfig "
                 "variants incl. ProxyHttpPort; one mesh in six on two networks with gateways; 1-2 distinct creation timestamps in 3 of 4 meshes; every sixth mesh "
                 "in ambient mode with a waypoint, every twelfth with PILOT_SIDECAR_PICK_BEST_SERVICE_NAMESPACE=false, every twelfth with "
-                "PILOT_CONVERT_SIDECAR_SCOPE_CONCURRENCY=4) + 18 hand-written witness meshes; the first third of the meshes and the witnesses also with the "
+                "PILOT_CONVERT_SIDECAR_SCOPE_CONCURRENCY=4) + 20 hand-written witness meshes; the first third of the meshes and the witnesses also with the "
                 "binary built with -tags vtprotobuf; distinct = hash of (ops, outputs); "
                 "non-trivial = at least one op / observation")
     ctx.assumptions = [
@@ -620,7 +612,7 @@ MANIFEST = {
     "level_note": ("PARTIAL (evidence: coverage.level_scope / level_qualification; the evidence field `level` names the technique, not the reach). Proved = "
                    "comparator/fold/pipeline-model logic (coverage.obligations, counted module Theorems.lean only); tied = stream cmp (21 op "
                    "kinds on the real functions); explored = real generation on ~140 (quick) / ~1500 (thorough) meshes, a third of them also with the "
-                   "vtprotobuf binary (coverage.streams.perm, counters perm.*) - no difference observed is not a proof. Sixteen genuine defects were found "
+                   "vtprotobuf binary (coverage.streams.perm, counters perm.*) - no difference observed is not a proof. Seventeen genuine defects were found "
                    "by the harness and repaired in /repo (fix: commits, notes/C17.md; each has a witness mesh in harness/corpus/C17 or a direct self-test), "
                    "among them one of STATE (ambient service selection depended on creation order), one of HISTORY (a gateway's scope depended on which "
                    "proxies were served before) and one of the MARSHALLER (vtprotobuf's MarshalVTStrict writes map fields in map iteration order: in the "
@@ -628,8 +620,9 @@ MANIFEST = {
                    "the full production set 'vtprotobuf disable_pgv' does not build (pilot/test/xdstest/validate.go, imported by the FakeDiscoveryServer, "
                    "calls the Validate methods disable_pgv removes) - disable_pgv removes validation code only. Known deviation, deliberate in "
                    "the code: the order of resources in a response of the EDS/RDS/ECDS xDS generators follows Go map iteration over the requested name "
-                   "set (fingerprint perm:response-order:requested-names, only `.setorder` observations; RDS/ECDS order for a fixed request order IS "
-                   "judged). Not covered: ztunnel (WDS/WAUTH), SDS, proxyless, multi-cluster, dual stack, Gateway API Gateways, the gRPC envelope (DiscoveryResponse) bytes; "
+                   "set (fingerprints perm:response-order:requested-names:{EDS,RDS,ECDS}, only `.setorder` observations). What they mask: for RDS/ECDS only the "
+                   "set walk - the order for a fixed request order IS judged; for EDS, which has no request with an order, EVERY cause of a different response "
+                   "order except order following the XDS cache history (probed: EDS.cachehistory -> perm:order:EDS:follows-cache-history). Contents are always judged. Not covered: ztunnel (WDS/WAUTH), SDS, proxyless, multi-cluster, dual stack, Gateway API Gateways, the gRPC envelope (DiscoveryResponse) bytes; "
                    "mesh networks only as one two-network shape; Kubernetes "
                    "Nodes are created before Pods (Node-after-Pod is C15's known finding order:locality-built-before-node-change). Trusted: Lean kernel + "
                    "{propext, Classical.choice, Quot.sound}; hand-written models tied by differential testing; hooks zz_verif_c17.go (model, xds, kube "
